@@ -111,7 +111,7 @@ pub trait SerializeContent {
     spec fn xml_text(&self) -> Seq<char>;
     fn serialize_content<W: Write>(&self, s: &mut Serializer<W>) -> (ret: SerResult)
         ensures
-            //# C03:xmlser.leaf.a_scalar_is_written_as_its_fully_escaped_text
+            //# C03,C13:xmlser.leaf.a_scalar_is_written_as_its_fully_escaped_text
             ret is Ok ==> final(s).inner.out@ == old(s).inner.out@ + self.xml_text(),
             //#-
     ;
